@@ -1,6 +1,7 @@
 """C14 — the metadata filter removes exactly the keys it is told to, nothing else."""
 import os, re
 from vlib.coqlit import *
+from props import c14lib
 
 ID = "C14"
 COQ_PROPS = ["Props/C14.v", "Props/C14conv.v"]
@@ -55,7 +56,6 @@ class Filt:
 
     @staticmethod
     def gen_cases(rng, tier):
-        import dcmstack  # only for nothing: defaults are read by run_impl; keep generator independent
         n = 900 if tier == 'quick' else 20000
         out = []
         for i in range(n):
@@ -113,12 +113,11 @@ class Filt:
             # patient / physician / date / UID / institution keys are excluded, image position and orientation always kept
             excl, incl = obs['def_excl'], obs['def_incl']
             want = any(re.search(e, key) for e in excl) and not any(re.search(i, key) for i in incl)
-            named = ['Patient', 'Physician', 'Operator', 'Date', 'Birth', 'Address', 'Institution', 'Station', 'SiteName', 'Age', 'Comment', 'Phone', 'Telephone', 'Insurance', 'Religious', 'Language', 'Military', 'MedicalRecord', 'Ethnic', 'Occupation', 'Unknown', 'PrivateTagData', 'UID', 'StudyDescription', 'DeviceSerialNumber', 'ReferencedImageSequence', 'RequestedProcedureDescription', 'PerformedProcedureStepDescription', 'PerformedProcedureStepID']   # the default exclude literals shipped at the pinned commit
-            if 'ImagePositionPatient' in key or 'ImageOrientationPatient' in key:
-                if obs['filtered']:
-                    return 'key %r (image position/orientation) is filtered out by the default filter' % key
-            elif any(n in key for n in named) and not any(re.search(i, key) for i in incl) and not obs['filtered']:
-                return 'key %r contains one of the shipped default exclude literals but survives the default filter' % key
+            must = c14lib.default_must_filter(key)       # generator-side truth, independent of the library's lists
+            if must is False and obs['filtered']:
+                return 'key %r (image position/orientation) is filtered out by the default filter' % key
+            if must is True and not obs['filtered']:
+                return 'key %r contains one of the shipped default exclude literals (and is not image position/orientation) but survives the default filter' % key
         else:
             if not obs['excl']:
                 return None
@@ -129,7 +128,9 @@ class Filt:
 
     @staticmethod
     def signature(case, obs, msg):
-        return 'filter-' + case['mode']
+        what = 'raised' if msg.startswith('filter raised') else 'geometry-filtered' if 'image position/orientation' in msg and 'is filtered out' in msg \
+            else 'named-survives' if 'survives the default filter' in msg else 'not-exclude-unless-included'
+        return 'filter-%s/%s' % (case['mode'], what)
 
     @staticmethod
     def nontrivial(case, obs):
